@@ -25,7 +25,7 @@ Your task: produce TWO different, independent source changes (call them A and B)
  3. is realistic (the kind of slip a maintainer could make in a refactor or "optimisation": a changed comparison, an off-by-one, a wrong early return, a dropped branch or clone, a removed defer, a swapped precedence, a wrong variable...) and is small (a few lines),
  4. needs something specific to manifest — a particular boundary value, an unusual but legal input, a multi-step sequence of operations, a fault at a particular point, a particular nesting/position, or two cooperating sites that each look fine alone — NOT something that ordinary use or the simplest example would expose at once. Make A and B different in kind and in location.
 
-For each change also write a demonstration: a Go test file (package of your choosing inside the worktree, file name ending in _test.go) that FAILS with the change applied and PASSES on the unmodified worktree. Verify both directions yourself (git stash / git apply -R).
+For each change also write a demonstration: a Go test file (package of your choosing inside the worktree, file name ending in _test.go) that FAILS with the change applied and PASSES on the unmodified worktree. Verify both directions yourself with git apply / git apply -R (do NOT use git stash: the stash is shared with other worktrees).
 
 Deliver, under /tmp/mut/{pid}/out/ (create it; also put an empty-module `go.mod` with `module out` there so `go test ./...` ignores it), for each change X in {{a,b}}:
  - out/X/patch.diff  — `git diff` of the library change only (NOT the demo test), applicable with `git apply` at the worktree root on a clean checkout
